@@ -34,6 +34,12 @@ class RawX12File(object):
         self.fd = fin
         self.buffer = None
         line = self.fd.read(ISA_LEN)
+        while len(line) < ISA_LEN:
+            # A stream may return fewer characters than requested
+            chunk = self.fd.read(ISA_LEN - len(line))
+            if chunk == '':
+                break
+            line += chunk
         if line[:3] != 'ISA':
             err_str = "First line does not begin with 'ISA': %s" % line[:3]
             raise pyx12.errors.X12Error(err_str)
